@@ -201,9 +201,12 @@ func (root *Root) RegisterField(gqlType, gqlField, goField string, args ...strin
 }
 
 func (root *Root) regField(obj *Object, fd *FieldDef, goField string, args ...string) (err error) {
+	// Work on a copy taken under the lock. Requests resolved at the same time
+	// set the type again in assureType so it must not be read without the lock.
 	obj.mu.Lock()
-	meta := obj.meta
+	objMeta := obj.meta
 	obj.mu.Unlock()
+	meta := objMeta
 	if meta.Kind() == reflect.Ptr {
 		meta = meta.Elem()
 	}
@@ -218,8 +221,8 @@ func (root *Root) regField(obj *Object, fd *FieldDef, goField string, args ...st
 			return
 		}
 	}
-	for i := obj.meta.NumMethod() - 1; 0 <= i; i-- {
-		m := obj.meta.Method(i)
+	for i := objMeta.NumMethod() - 1; 0 <= i; i-- {
+		m := objMeta.Method(i)
 		if strings.EqualFold(m.Name, goField) {
 			fd.method = &m.Func
 			break
@@ -228,14 +231,14 @@ func (root *Root) regField(obj *Object, fd *FieldDef, goField string, args ...st
 	if fd.method != nil {
 		if 0 < len(args) {
 			if fd.args.Len() != len(args) {
-				return fmt.Errorf("%w: not enough arguments for field %s of %s", ErrMeta, goField, obj.meta)
+				return fmt.Errorf("%w: not enough arguments for field %s of %s", ErrMeta, goField, objMeta)
 			}
 			newArgs := argList{}
 			for _, arg := range args {
 				if a := fd.args.get(arg); a != nil {
 					_ = newArgs.add(a)
 				} else {
-					err = fmt.Errorf("%w: %s is not an argument on field %s of %s", ErrMeta, arg, goField, obj.meta)
+					err = fmt.Errorf("%w: %s is not an argument on field %s of %s", ErrMeta, arg, goField, objMeta)
 					break
 				}
 			}
@@ -243,7 +246,7 @@ func (root *Root) regField(obj *Object, fd *FieldDef, goField string, args ...st
 		}
 		return
 	}
-	return fmt.Errorf("%w: %s is not a field of %s", ErrMeta, goField, obj.meta)
+	return fmt.Errorf("%w: %s is not a field of %s", ErrMeta, goField, objMeta)
 }
 
 func (root *Root) addTypes(types ...Type) error {
